@@ -8,7 +8,7 @@ import gen  # noqa: E402
 a, b = int(sys.argv[1]), int(sys.argv[2])
 for seed in range(a, b):
     proc, jobs, types = gen.make_case(seed)
-    st, out, _ = gen.run_stream(jobs, False, timeout=20)
+    st, out, _ = gen.run_stream(jobs, False, timeout=int(os.environ.get('CASE_TIMEOUT', '6')))
     txt = gen.norm(out)
     print(json.dumps(dict(seed=seed, st=st,
                           h=hashlib.sha1(txt.encode()).hexdigest()[:12],
